@@ -78,9 +78,10 @@ type pxStep struct {
 }
 
 type pxScenario struct {
-	Mode string `json:"mode"` // env | rpc
-	Px   string `json:"px"`
-	Icpt struct {
+	Mode  string `json:"mode"`  // env | rpc
+	ByRef bool   `json:"byref"` // the peers' links hand envelopes over by reference (in-memory transports): an empty list stays an empty list
+	Px    string `json:"px"`
+	Icpt  struct {
 		Kind string `json:"kind"` // nil | id | rw | rej
 		From string `json:"from"`
 		To   string `json:"to"`
@@ -188,7 +189,7 @@ type pxRt struct {
 }
 
 func (rt *pxRt) newConn(name string, hn int) *pxConn {
-	c := &pxConn{rt: rt, hn: hn, name: name, l: newLink(0, true, true, "", "", "", "")}
+	c := &pxConn{rt: rt, hn: hn, name: name, l: newLink(0, true, !rt.sc.ByRef, "", "", "", "")}
 	rt.mu.Lock()
 	rt.conns[hn] = c
 	rt.mu.Unlock()
